@@ -165,7 +165,17 @@ def real_cases(ctx, rng, nkeys):
         for name, dd, zz, rr, ss in cat:
             Q = pts[dd] if pts[dd] is not None else pecc.PrivateKey(dd).point
             pts[dd] = Q
-            got = outcome(Q.verify, zz, pecc.Signature(rr, ss))
+            # every other catalogue runs on ONE signature object (the one signing returned, already verified once) whose r and s are
+            # assigned: the answer is a function of the tuple, not of what the object was asked before (a Signature that refuses
+            # assignment gets a fresh object instead)
+            sobj = None
+            if i % 2 == 1:
+                try:
+                    sig.r, sig.s = rr, ss
+                    sobj = sig
+                except Exception:
+                    sobj = None
+            got = outcome(Q.verify, zz, sobj if sobj is not None else pecc.Signature(rr, ss))
             cases.append({"id": "v%d.%s" % (i, name), "kind": "everify", "name": name, "d": le(dd), "z": le(zz), "r": le(rr), "s": le(ss), "k": le(k), "rbase": le(r0),
                           "dsk": dec(ss * k), "dsnk": dec(ss * (N256 - k)), "dzrd": dec(zz + rr * dd), "accepted": got == ("ok", True), "raw": str(got)})
             ctx.nontriv(("real-verify", name, got == ("ok", True)))
